@@ -163,10 +163,9 @@ func judgeStatus(exp expectation, sc *sim.Scenario, res *sim.Result) []finding {
 // side effect refuses (with an error, which the statement leaves open):
 // the status model does not expect 200/201 for them.
 var rejectedByDesign = map[string]bool{
-	"inbox.Update.iri-object":              true,
-	"outbox.Update.iri-object":             true,
-	"inbox.Follow.onfollow=7":              true,
-	"inbox.forwarding.audience-without-id": true,
+	"inbox.Update.iri-object":  true,
+	"outbox.Update.iri-object": true,
+	"inbox.Follow.onfollow=7":  true,
 }
 
 // idFamily returns the "usable id" variants for an inbox activity body.
